@@ -1,4 +1,4 @@
-from harness import hist
+from harness import conc, hist
 
 META = {
     'property_id': 'C08', 'lean_module': 'Placement.Props.C08', 'category': 'proof',
@@ -15,12 +15,22 @@ PROFILE = {'weights': {'rp_delete': 10, 'inv_delete': 8, 'inv_delete_all': 4, 'r
                        'rc_rename': 2},
            'n_rps': 6}
 
+RACES = {'n_rps': 6, 'setup_ops': 22, 'picker': 'tree', 'model': False,
+         'scenarios': ['create-vs-delete', 'move-vs-delete', 'delete-vs-alloc', 'delete-vs-inv', 'delete-vs-traits',
+                       'invdelete-vs-alloc', 'rcdelete-vs-inv', 'traitdelete-vs-use'],
+         'setup_weights': {'rp_create': 30, 'rp_update': 6, 'rp_delete': 1, 'alloc_put': 12, 'inv_set': 14, 'rc_rename': 0,
+                           'rc_delete': 0, 'trait_delete': 0}}
+
 
 def run(chk):
     if not getattr(chk, 'no_lean', False):
         chk.lean_stage(META['lean_module'], exe=True)
     n = 400 if chk.tier == 'quick' else 8000
     hist.run_histories(chk, n, 50, PROFILE, ['C08'])
+    # beyond sequences: the same records under two in-flight requests (a deletion racing with a request that starts
+    # using the entity), every interleaving at transaction granularity on the real application, judged on the state
+    # the schedule ends in and by the serial-order oracle
+    conc.run_races(chk, ['C08'], 96 if chk.tier == 'quick' else 2000, 300, RACES)
     chk.cov['rule'] = ('random histories of 50 requests mixing creation, replacement and deletion of providers, inventories, '
                        'classes, traits, aggregates and allocations; joins evaluated on the real tables after every request; '
-                       'distinct = (operation, status) pairs')
+                       'distinct = (operation, status) pairs; plus every interleaving of deletion-versus-use request pairs')
